@@ -71,14 +71,14 @@ PLANS = {
     # (kind, threads, values, max events, ill-formed step allowed up to this length (then <=2 more events))
     "quick": [("reg", 2, 2, 5, 0), ("reg", 2, 2, 3, 3), ("reg", 3, 1, 4, 0), ("wo", 2, 2, 4, 0), ("wo", 2, 1, 3, 3),
               ("vec", 2, 1, 4, 0), ("vec", 2, 1, 3, 3)],
-    "thorough": [("reg", 2, 2, 6, 0), ("reg", 2, 1, 7, 0), ("reg", 3, 1, 6, 0), ("reg", 3, 2, 3, 3), ("wo", 2, 2, 6, 0),
+    "thorough": [("reg", 2, 2, 6, 0), ("reg", 2, 1, 6, 0), ("reg", 3, 1, 5, 0), ("reg", 3, 2, 3, 3), ("wo", 2, 2, 5, 0),
                  ("wo", 3, 1, 5, 0), ("wo", 2, 2, 3, 3), ("vec", 2, 2, 5, 0), ("vec", 3, 1, 5, 0), ("vec", 2, 2, 3, 3)],
 }
 
 # sampled legs: (kind, threads, values, max events, number of TLC-simulated behaviours)
 SAMPLED = {
     "quick": [("reg", 3, 2, 9, 700), ("vec", 3, 2, 8, 150), ("wo", 3, 2, 8, 150)],
-    "thorough": [("reg", 3, 2, 10, 60000), ("reg", 4, 2, 10, 20000), ("vec", 3, 2, 9, 20000), ("wo", 3, 2, 9, 20000)],
+    "thorough": [("reg", 3, 2, 10, 30000), ("reg", 4, 2, 10, 10000), ("vec", 3, 2, 9, 10000), ("wo", 3, 2, 9, 10000)],
 }
 
 FIELDS = {
